@@ -6,6 +6,7 @@ import (
 	"reflect"
 	"strings"
 	"testing"
+	"time"
 
 	"github.com/mfcochauxlaberge/jsonapi"
 	"pgregory.net/rapid"
@@ -455,13 +456,27 @@ type c20WithEmbedded struct {
 	B int `json:"b" api:"attr"`
 }
 
+// An embedded time.Time (or *time.Time) can itself be tagged as an attribute.
+type c20WithEmbeddedTime struct {
+	ID        string `json:"id" api:"t"`
+	time.Time `json:"created" api:"attr"`
+	A         string `json:"a" api:"attr"`
+}
+
+type c20WithEmbeddedTimePtr struct {
+	*time.Time `json:"created" api:"attr"`
+	ID         string `json:"id" api:"t"`
+}
+
 func TestC20Regress(t *testing.T) {
 	// accepted or rejected, but consistently
 	for name, v := range map[string]any{
-		"named-field-type": c20WithNamed{},
-		"unexported-field": c20WithUnexported{},
-		"embedded-struct":  c20WithEmbedded{},
-		"named-id-type":    c20WithNamedID{},
+		"embedded-time-attr":     c20WithEmbeddedTime{},
+		"embedded-time-ptr-attr": c20WithEmbeddedTimePtr{},
+		"named-field-type":       c20WithNamed{},
+		"unexported-field":       c20WithUnexported{},
+		"embedded-struct":        c20WithEmbedded{},
+		"named-id-type":          c20WithNamedID{},
 	} {
 		t.Run(name, func(t *testing.T) {
 			cerr := jsonapi.Check(v)
@@ -475,7 +490,11 @@ func TestC20Regress(t *testing.T) {
 				}
 
 				_ = w.Copy()
-				_ = jsonapi.MarshalResource(w, "", []string{"a", "b", "n", "inner", "hidden", "r"}, nil)
+				for n := range w.Attrs() {
+					w.Set(n, w.Get(n))
+				}
+
+				_ = jsonapi.MarshalResource(w, "", []string{"a", "b", "n", "inner", "hidden", "r", "created"}, nil)
 			})
 
 			if cerr == nil && (berr != nil || wp != nil) {
